@@ -293,6 +293,46 @@ def rule_reader_agrees(ctx, facts, rule, table):
                           extra="owned-text")
 
 
+def rule_serde_text_only(ctx, facts, rule):
+    """TraceId / SpanId go through serde as text for every Serializer / Deserializer: the Serialize impls hand the
+    serializer a string on every path (serialize_str / collect_str, nothing else asked of it), and the Deserialize impls
+    ask the deserializer for text only. A second wire form chosen by `is_human_readable()` is not the hex form and has to
+    be mirrored in four places to round-trip at all."""
+    n = 0
+    for ty in ("TraceId", "SpanId"):
+        p = "<fastrace::collector::id::%s as serde::ser::Serialize>::serialize" % ty
+        g = ctx.need_fn(facts, p, rule)
+        if g is not None:
+            n += 1
+            asks = [b for b in g.calls(lambda t: re.search(r"serde::ser::Serializer::\w+$", t.get("decl", t["callee"]))) if not g.blocks[b]["cleanup"]]
+            text = [b for b in asks if re.search(r"::(serialize_str|collect_str)$", g.term(b).get("decl", g.term(b)["callee"]))]
+            other = sorted({g.term(b).get("decl", g.term(b)["callee"]).rsplit("::", 1)[1] for b in asks if b not in text})
+            ok, wit = g.must_pass([0], text) if text else (False, None)
+            ctx.check(bool(text) and not other and ok, rule, p, g.span,
+                      "%s is serialised as a string on every path, whatever the Serializer" % ty, "text calls at %s" % [g.loc(b) for b in text],
+                      "other requests to the serializer: %s; a path returns at bb%s without serialize_str/collect_str" % (other, wit),
+                      extra="ser-text")
+        p = "<fastrace::collector::id::%s as serde::de::Deserialize<'de>>::deserialize" % ty
+        g = ctx.need_fn(facts, p, rule)
+        if g is not None:
+            n += 1
+            asks = [b for b in g.calls(lambda t: re.search(r"serde::de::Deserializer::\w+$|serde::de::Deserialize::deserialize$", t.get("decl", t["callee"])))
+                    if not g.blocks[b]["cleanup"]]
+
+            def textual(t):
+                d = t.get("decl", t["callee"])
+                if re.search(r"Deserializer::deserialize_(str|string)$", d):
+                    return True
+                if d.endswith("Deserialize::deserialize"):
+                    return bool(re.search(r"for (alloc::string::String|&'?\w* ?str|alloc::borrow::Cow<'?\w*,? ?str>|alloc::boxed::Box<str>)>::deserialize$", t["callee"]))
+                return False
+            other = sorted({g.term(b)["callee"].rsplit("::", 2)[-2][:60] + "::" + g.term(b)["callee"].rsplit("::", 1)[1] for b in asks if not textual(g.term(b))})
+            ctx.check(bool(asks) and not other, rule, p, g.span,
+                      "%s is deserialised from text only, whatever the Deserializer" % ty, "%d request(s), all textual" % len(asks),
+                      "non-textual requests to the deserializer: %s" % other, extra="de-text")
+    ctx.floor(rule, "fastrace::collector::id", n, 4, "serde impls of TraceId / SpanId")
+
+
 SIGN_RECOGNISERS = r"is_ascii_hexdigit$|char::methods::<impl char>::(is_digit|to_digit|is_ascii_hexdigit)$|<impl u8>::is_ascii_hexdigit$|" \
                    r"<impl str>::(starts_with|strip_prefix|trim_start_matches)$"
 
